@@ -35,9 +35,9 @@ import (
 
 type wireRec struct {
 	path string
-	cmd string
-	raw []byte
-	msg proto.Message
+	cmd  string
+	raw  []byte
+	msg  proto.Message
 }
 
 type recStore struct {
@@ -103,7 +103,23 @@ func rpcRoute(req *tikvrpc.Request) {
 	req.RegionId, req.RegionEpoch, req.Peer = r.Id, r.RegionEpoch, p
 }
 
-func rpcSendAsync(rpc *client.RPCClient, addr string, req *tikvrpc.Request) error {
+// a transmission through the real client; a panic inside it (e.g. a codec handed a request of another command)
+// becomes an error of this transmission instead of ending the driver
+func safeSend(rpc *client.RPCClient, addr string, req *tikvrpc.Request) (resp *tikvrpc.Response, err error) {
+	defer func() {
+		if r := recover(); r != nil {
+			resp, err = nil, fmt.Errorf("panic in SendRequest: %v", r)
+		}
+	}()
+	return rpc.SendRequest(context.Background(), addr, req, 5*time.Second)
+}
+
+func rpcSendAsync(rpc *client.RPCClient, addr string, req *tikvrpc.Request) (rerr error) {
+	defer func() {
+		if r := recover(); r != nil {
+			rerr = fmt.Errorf("panic in SendRequestAsync: %v", r)
+		}
+	}()
 	ctx, cancel := context.WithTimeout(context.Background(), 10*time.Second)
 	defer cancel()
 	rl := async.NewRunLoop()
@@ -176,7 +192,7 @@ func runRPC(seed int64, tier string) {
 					req := tikvrpc.NewRequest(tikvrpc.CmdRawGet, &kvrpcpb.RawGetRequest{Key: []byte(fmt.Sprintf("bg-%d-%d", g, i))})
 					rpcRoute(req)
 					if i%2 == 0 {
-						rpc.SendRequest(context.Background(), addr, req, 5*time.Second)
+						safeSend(rpc, addr, req)
 					} else {
 						rpcSendAsync(rpc, addr, req)
 					}
@@ -211,7 +227,7 @@ func runRPC(seed int64, tier string) {
 				for n := 0; n < 3; n++ {
 					var err error
 					if path == "sync" {
-						_, err = rpc.SendRequest(context.Background(), addr, req, 5*time.Second)
+						_, err = safeSend(rpc, addr, req)
 					} else {
 						err = rpcSendAsync(rpc, addr, req)
 					}
